@@ -1,90 +1,219 @@
 """C10 algebra of the search syntax (list-backed part; file-system finders are exercised by C11)."""
 from harness.runner import PropBase, Case
-from harness import gen
+from harness import gen, core
+from props.c01 import natural
 from props import listsearch as ls
 
 class C10(PropBase):
     id = 'C10'
     rule = ('pairs (search, derived searches) by the five rewrite rules (comma -> alternatives, alias -> members, ** -> 0..n /* levels restricted to '
-            'leaf types, filter k=v -> field equality, * -> literal) over generated universes on FindInList; non-trivial = the left search finds something; '
+            'leaf types, filter k=v -> field equality, * -> literal) over generated universes on FindInList, and over real trees on FindInPaths and FindInAll; non-trivial = the left search finds something; '
             'distinct by (universe, rule, search)')
-    partial_note = 'FindInList part; FindInPaths / FindInAll are covered through C11 (finder agreement)'
+    partial_note = 'alias / ** / filter / literal rules are oracle-checked pairs on the implementation (FindInList, FindInPaths, FindInAll), not theorems'
+    def confdir(self, ws):
+        return core.make_fs_confdir(ws)
+    def gen_group(self, rng, v, base, pool):
+        """One rewrite pair from the entry [base]: returns (rule, left, rights, meta) or None.  [pool] = entries of the universe."""
+        segs = base.split('/')
+        bsegs = base.split('/')
+        for i in range(len(segs)):
+            if rng.random() < 0.35:
+                segs[i] = '*'
+        rule = rng.choice(['comma', 'alias', 'dstar', 'filter', 'literal'])
+        if rule == 'comma':
+            i = rng.randrange(len(segs))
+            # prefer a value that exists at this level in the universe, in particular one that extends / is extended by this value
+            others = sorted(set(e.split('/')[i] for e in pool if len(e.split('/')) > i and e.split('/')[i] != bsegs[i]))
+            # alternatives of a ',' list are stripped by the syntax: only values that are their own stripped form, without search symbols
+            others = [o for o in others if o and o == o.strip() and not any(ch in o for ch in ',?*>:')]
+            related = [o for o in others if o.endswith(bsegs[i]) or o.startswith(bsegs[i]) or bsegs[i].endswith(o) or bsegs[i].startswith(o)]
+            r = rng.random()
+            if related and r < 0.5:
+                other = rng.choice(related)
+                for j in (i - 1, i + 1):          # a wildcard next to it
+                    if 0 <= j < len(segs) and rng.random() < 0.6:
+                        segs[j] = '*'
+            elif others and r < 0.75:
+                other = rng.choice(others)
+            elif r < 0.85:
+                other = '*'                        # overlapping alternatives
+            else:
+                other = rng.choice(ls.NAMES + ['ma', 'mov', 'w', 'p', 'char', 'prop', 's', 'a'])
+            alts = [bsegs[i], other]
+            if rng.random() < 0.5:
+                alts.sort()
+            left = '/'.join(segs[:i] + [','.join(alts)] + segs[i + 1:])
+            rights = ['/'.join(segs[:i] + [a] + segs[i + 1:]) for a in alts]
+            return rule, left, rights, {}
+        if rule == 'alias':
+            if not v.alias:
+                return None
+            al = rng.choice(list(v.alias))
+            if rng.random() < 0.4 and len(v.alias) > 1:
+                al2 = rng.choice([a for a in v.alias if a != al])
+                return rule, '/'.join(segs[:-1] + [al + ',' + al2]), ['/'.join(segs[:-1] + [m]) for m in v.alias[al] + v.alias[al2]], {}
+            return rule, '/'.join(segs[:-1] + [al]), ['/'.join(segs[:-1] + [m]) for m in v.alias[al]], {}
+        if rule == 'dstar':
+            if len(segs) < 2:
+                return None
+            i = rng.randrange(1, len(segs))
+            return rule, '/'.join(segs[:i] + ['**']), ['/'.join(segs[:i] + ['*'] * n) for n in range(0, 10)], {}
+        if rule == 'filter':
+            keys = self.keys_for(v, base)
+            if not keys:
+                return None
+            i = rng.randrange(len(keys))
+            segs[i] = '*'
+            val = bsegs[i]
+            if val in v.alias:
+                return None      # an alias value is itself a search (covered by the alias rule)
+            return rule, '/'.join(segs) + '?' + keys[i] + '=' + val, ['/'.join(segs)], {'key': keys[i], 'val': val}
+        stars = [i for i, g in enumerate(segs) if g == '*']
+        if not stars:
+            return None
+        i = rng.choice(stars)
+        val = bsegs[i]
+        if val in v.alias:
+            return None
+        return rule, '/'.join(segs[:i] + [val] + segs[i + 1:]), ['/'.join(segs)], {'pos': i, 'val': val}
     def cases(self, rng, ctx, tier):
         v = gen.vocab_from_ctx(ctx)
         nu, ns = (40, 12) if tier == 'quick' else (400, 40)
         out = []
-        gid = 0
+        self.gid = 0
         for _ in range(nu):
             items = ls.universe(rng, v, kind=rng.choice(['full', 'full', 'leaf', 'mixed']), size=rng.randint(5, 16))
             typed_items = [s for s in items if s]
-            for _ in range(ns):
-                gid += 1
+            opts = ['pre_sort'] if rng.random() < 0.4 else []      # FindInList(items, do_pre_sort=True)
+            tg = [g for g in self.targeted(rng, v, [s for s in typed_items if natural(v, s)]) if g[0] == 'literal']
+            for gi in range(ns + len(tg)):
+                self.gid += 1
                 base = rng.choice(typed_items) if typed_items else 'hamlet'
-                segs = base.split('/')
-                # generalise some segments
-                for i in range(len(segs)):
-                    if rng.random() < 0.35:
-                        segs[i] = '*'
-                rule = rng.choice(['comma', 'alias', 'dstar', 'filter', 'literal'])
-                if rule == 'comma':
-                    i = rng.randrange(len(segs))
-                    alts = [base.split('/')[i], rng.choice(ls.NAMES + ['ma', 'mov', 'w', 'p', 'char', 'prop', 's', 'a'])]
-                    left = '/'.join(segs[:i] + [','.join(alts)] + segs[i + 1:])
-                    rights = ['/'.join(segs[:i] + [a] + segs[i + 1:]) for a in alts]
-                elif rule == 'alias':
-                    if not v.alias:
-                        continue
-                    al = rng.choice(list(v.alias))
-                    if rng.random() < 0.4 and len(v.alias) > 1:
-                        al2 = rng.choice([a for a in v.alias if a != al])
-                        left = '/'.join(segs[:-1] + [al + ',' + al2])
-                        rights = ['/'.join(segs[:-1] + [m]) for m in v.alias[al] + v.alias[al2]]
-                    else:
-                        left = '/'.join(segs[:-1] + [al])
-                        rights = ['/'.join(segs[:-1] + [m]) for m in v.alias[al]]
-                elif rule == 'dstar':
-                    if len(segs) < 2:
-                        continue
-                    i = rng.randrange(1, len(segs))
-                    left = '/'.join(segs[:i] + ['**'])
-                    rights = ['/'.join(segs[:i] + ['*'] * n) for n in range(0, 10)]
-                elif rule == 'filter':
-                    keys = self.keys_for(v, base)
-                    if not keys:
-                        continue
-                    i = rng.randrange(len(keys))
-                    segs[i] = '*'
-                    val = base.split('/')[i]
-                    if val in v.alias:
-                        continue      # an alias value is itself a search (covered by the alias rule)
-                    left = '/'.join(segs) + '?' + keys[i] + '=' + val
-                    rights = ['/'.join(segs)]
-                    out.append(Case('find_list_sids', [items, left], 'pair', {'g': gid, 'rule': rule, 'side': 'L', 'key': keys[i], 'val': val}))
-                    out.append(Case('find_list_sids', [items, rights[0]], 'pair', {'g': gid, 'rule': rule, 'side': 'R', 'key': keys[i], 'val': val}))
+                g = tg[gi - ns] if gi >= ns else self.gen_group(rng, v, base, typed_items)
+                if g is None:
                     continue
-                else:
-                    stars = [i for i, g in enumerate(segs) if g == '*']
-                    if not stars:
-                        continue
-                    i = rng.choice(stars)
-                    val = base.split('/')[i]
-                    if val in v.alias:
-                        continue
-                    left = '/'.join(segs[:i] + [val] + segs[i + 1:])
-                    rights = ['/'.join(segs)]
-                    out.append(Case('find_list_sids', [items, left], 'pair', {'g': gid, 'rule': rule, 'side': 'L', 'pos': i, 'val': val}))
-                    out.append(Case('find_list_sids', [items, rights[0]], 'pair', {'g': gid, 'rule': rule, 'side': 'R', 'pos': i, 'val': val}))
-                    continue
-                out.append(Case('find_list_sids', [items, left], 'pair', {'g': gid, 'rule': rule, 'side': 'L'}))
+                rule, left, rights, m = g
+                out.append(Case('find_list_sids', [items, left] + opts, 'pair', dict(m, g=self.gid, rule=rule, side='L')))
                 for r_ in rights:
-                    out.append(Case('find_list_sids', [items, r_], 'pair', {'g': gid, 'rule': rule, 'side': 'R'}))
+                    out.append(Case('find_list_sids', [items, r_] + opts, 'pair', dict(m, g=self.gid, rule=rule, side='R')))
+                if gi >= ns and not opts:       # the targeted groups on both kinds of FindInList
+                    self.gid += 1
+                    out.append(Case('find_list_sids', [items, left, 'pre_sort'], 'pair', dict(m, g=self.gid, rule=rule, side='L')))
+                    for r_ in rights:
+                        out.append(Case('find_list_sids', [items, r_, 'pre_sort'], 'pair', dict(m, g=self.gid, rule=rule, side='R')))
+        # file-system universes: the path of every entity and ancestor (the trees are built in phase 2)
+        from props.c11 import C11
+        self.nfs = 3 if tier == 'quick' else 24
+        c11 = C11()
+        self.fs_universes = [c11.leafs(rng, v, rng.randint(4, 10)) for _ in range(self.nfs)]
+        self.default_cfg = ctx['rawd']['default_path_config'] or ctx['rawd']['path_configs'][0][0]
+        # one deliberate family per universe: a free value that lives deep in the hierarchy (in the file name only), a sibling
+        # extending it across the file-name separator on either side, and the same value under another parent
+        from props.c05 import C05
+        with_path = set(k for pc in ctx['rawd']['path_configs'] if pc[0] == self.default_cfg for k, _ in dict((k, vv) for k, vv in pc[1])['templates'])
+        deep = [t for t in v.order if t in with_path and any(v.alternatives(e) is None and i > 4 for i, (k, e) in enumerate(v.types[t]))]
+        for leafs in self.fs_universes:
+            if not deep:
+                break
+            t = rng.choice(deep)
+            s0 = C05().concrete(rng, v, t).split('/')
+            i = max(i for i, (k, e) in enumerate(v.types[t]) if v.alternatives(e) is None)
+            s0[i] = rng.choice(['a', 'x', 'n1'])
+            s1 = list(s0); s1[i] = (rng.choice(['zz_', 'y_']) + s0[i]) if rng.random() < 0.6 else (s0[i] + rng.choice(['_y', '_WORK']))
+            leafs.append('/'.join(s0)); leafs.append('/'.join(s1))
+            for _ in range(3):
+                s2 = C05().concrete(rng, v, t).split('/')
+                if s2[:4] == s0[:4]:
+                    leafs.append('/'.join(s0[:4] + s2[4:i] + s0[i:]))
+                    break
+        for ui, leafs in enumerate(self.fs_universes):
+            seen = set()
+            for s_ in leafs:
+                parts = s_.split('/')
+                for i in range(1, len(parts) + 1):
+                    e = '/'.join(parts[:i])
+                    if e not in seen:
+                        seen.add(e)
+                        out.append(Case('path', [['s', e], self.default_cfg, 'pos'], 'paths', {'u': ui, 'sid': e}))
         return out
     def phase2(self, rng, ctx, cases, impl_out, tier):
+        v = gen.vocab_from_ctx(ctx)
         more = []
         for c in cases:
             if c.meta.get('rule') in ('dstar', 'filter') and c.meta.get('side') == 'R':
                 more.append(Case('unfold', [c.args[1], '0', '0'], 'unfold', {'for': c.args[1]}))
+        # the same rules on FindInPaths and FindInAll over real trees
+        leaf_keys = dict(ctx['rawd']['leaf_keys'])
+        def is_file(sid):
+            n = natural(v, sid)
+            return bool(n) and n[1][-1][0] == leaf_keys.get(n[0].split(ctx['rawd']['sep'])[0])
+        per_u = {}
+        for c, o in zip(cases, impl_out):
+            if c.stream == 'paths' and o[0] == 'ok' and o[1]:
+                per_u.setdefault(c.meta['u'], {})[c.meta['sid']] = o[1][0]
+        ns = 16 if tier == 'quick' else 40
+        for ui in range(getattr(self, 'nfs', 0)):
+            ent = per_u.get(ui, {})
+            if not ent:
+                continue
+            more.append(Case('fs_reset', [], 'setup', {}))
+            for sid, p in sorted(ent.items(), key=lambda kv: len(kv[1])):
+                more.append(Case('fs_put', [p, 'empty' if is_file(sid) else 'dir'], 'setup', {}))
+            L = sorted(ent)
+            groups = self.targeted(rng, v, L)
+            for _ in range(ns):
+                g = self.gen_group(rng, v, rng.choice(L), L)
+                if g is not None:
+                    groups.append(g)
+            for g in groups:
+                self.gid += 1
+                rule, left, rights, m = g
+                for q, side in [(left, 'L')] + [(r_, 'R') for r_ in rights]:
+                    mm = dict(m, g=self.gid, rule=rule, side=side, u=ui)
+                    more.append(Case('find_paths', [self.default_cfg, q], 'fspair', dict(mm, finder='paths')))
+                    more.append(Case('find_all', [q], 'fspair', dict(mm, finder='all')))
+                    more.append(Case('unfold', [q, '0', '0'], 'unfold', {'for': q}))
+        more.append(Case('fs_reset', [], 'setup', {}))
         return more
+    def targeted(self, rng, v, L):
+        """deterministic comma groups: per level one entity with overlapping alternatives (value, '*') at its last position, and
+        for every pair of entities that differ in one value, one extending the other across a '_' (x / x_y / y_x), both values as
+        alternatives with a wildcard next to them"""
+        out = []
+        # literal rule, one wildcard only, at a value with an unusual first / last character
+        import re as _re
+        odd = [e for e in L if e and any(not _re.match(r'^[A-Za-z0-9][A-Za-z0-9_.-]*$', g) for g in e.split('/'))]
+        for e in odd[:6] + ([rng.choice(L)] if L else []):
+            segs = e.split('/')
+            cand = [i for i, g in enumerate(segs) if not _re.match(r'^[A-Za-z0-9][A-Za-z0-9_.-]*$', g)] or [len(segs) - 1]
+            i = rng.choice(cand)
+            if segs[i] in v.alias or not segs[i] or any(ch in e for ch in '*>,?'):
+                continue
+            out.append(('literal', e, ['/'.join(segs[:i] + ['*'] + segs[i + 1:])], {'pos': i, 'val': segs[i]}))
+        bylen = {}
+        for e in L:
+            bylen.setdefault(len(e.split('/')), []).append(e)
+        for n, es in sorted(bylen.items()):
+            base = rng.choice(es).split('/')
+            out.append(('comma', '/'.join(base[:-1] + [base[-1] + ',*']), ['/'.join(base), '/'.join(base[:-1] + ['*'])], {}))
+            seen = 0
+            for e1 in es:
+                for e2 in es:
+                    a, b = e1.split('/'), e2.split('/')
+                    diff = [i for i in range(n) if a[i] != b[i]]
+                    if len(diff) != 1 or seen >= 2:
+                        continue
+                    i = diff[0]
+                    if not (b[i].endswith('_' + a[i]) or b[i].startswith(a[i] + '_')):
+                        continue
+                    seen += 1
+                    for j in range(2, n):          # a wildcard in any other field (neighbours in the file name need not be neighbours in the Sid)
+                        if j != i:
+                            segs = list(a); segs[j] = '*'
+                            alts = [a[i], b[i]]
+                            out.append(('comma', '/'.join(segs[:i] + [','.join(alts)] + segs[i + 1:]),
+                                        ['/'.join(segs[:i] + [x] + segs[i + 1:]) for x in alts], {}))
+        return out
     def keys_for(self, v, s):
         from props.c01 import natural
         n = natural(v, s)
@@ -102,6 +231,7 @@ class C10(PropBase):
             if c.op == 'find_list_sids' and 'g' in c.meta:
                 groups.setdefault(c.meta['g'], []).append((c, o))
         fails = []
+        fails.extend(self.fs_oracle(cases, impl_out, ctx, unfolds, v, leaf_keys, sep))
         for g, lst in groups.items():
             L = [(c, o) for c, o in lst if c.meta['side'] == 'L']
             R = [(c, o) for c, o in lst if c.meta['side'] == 'R']
@@ -157,9 +287,82 @@ class C10(PropBase):
                 if left != right:
                     fails.append((lc, lo, 'literal: %r gives %r, subset of the * search %r' % (lc.args[1], left, right)))
         return fails
+    def fs_oracle(self, cases, impl_out, ctx, unfolds, v, leaf_keys, sep):
+        """the rules on FindInPaths / FindInAll results (strings): unions as sets, multiplicity of a string bounded by the
+        number of searched types that accept it, filter / literal by the fields the searched types give the string"""
+        from props.c02 import all_accepting
+        groups = {}
+        for c, o in zip(cases, impl_out):
+            if c.stream == 'fspair':
+                groups.setdefault((c.meta['g'], c.meta['finder']), []).append((c, o))
+        fails = []
+        for (g, finder), lst in sorted(groups.items()):
+            L = [(c, o) for c, o in lst if c.meta['side'] == 'L']
+            R = [(c, o) for c, o in lst if c.meta['side'] == 'R']
+            if not L:
+                continue
+            (lc, lo) = L[0]
+            q = lc.args[-1]
+            if any(o[0] != 'ok' for _, o in lst):
+                if lo[0] != 'ok' and lo[1] != 'SpilException':
+                    fails.append((lc, lo, '%s: search raised %r' % (finder, lo)))
+                continue
+            rule = lc.meta['rule']
+            # no duplicates: a string may appear once per searched type that accepts it
+            for c_, o_ in lst:
+                u = unfolds.get(c_.args[-1])
+                if not u or u[0] != 'ok':
+                    continue
+                utypes = set(x[1] for x in u[1])
+                for s_ in set(o_[1]):
+                    cap = len([1 for t, _ in all_accepting(v, s_) if t in utypes])
+                    if o_[1].count(s_) > max(cap, 1):
+                        fails.append((c_, o_, '%s.find(%r) yields %r %d times (searched types accepting it: %d)' % (finder, c_.args[-1], s_, o_[1].count(s_), cap)))
+            left = sorted(set(lo[1]))
+            if rule in ('comma', 'alias'):
+                right = sorted(set(x for _, o in R for x in o[1]))
+                if left != right:
+                    fails.append((lc, lo, '%s, %s: %r gives %r, union of the alternatives %r gives %r' % (finder, rule, q, left, [c_.args[-1] for c_, _ in R], right)))
+            elif rule == 'dstar':
+                right = set()
+                for rc, o in R:
+                    u = unfolds.get(rc.args[-1])
+                    if not u or u[0] != 'ok':
+                        continue
+                    if any(x[2] and x[2][-1][0] == leaf_keys.get(x[1].split(sep)[0]) for x in u[1]):
+                        right.update(o[1])
+                if left != sorted(right):
+                    fails.append((lc, lo, '%s, **: %r gives %r, union over /* levels restricted to leaf types %r' % (finder, q, left, sorted(right))))
+            elif rule in ('filter', 'literal'):
+                ru = unfolds.get(R[0][0].args[-1]) if R else None
+                if not ru or ru[0] != 'ok':
+                    continue
+                utypes = set(x[1] for x in ru[1])
+                if rule == 'filter':
+                    k, val = lc.meta['key'], lc.meta['val']
+                    if not all(k in dict(x[2]) for x in ru[1]):
+                        continue
+                    def keep(s_):
+                        vals = set(dict(f).get(k) for t, f in all_accepting(v, s_) if t in utypes)
+                        return (val in vals), len(vals) <= 1
+                else:
+                    i, val = lc.meta['pos'], lc.meta['val']
+                    def keep(s_):
+                        return s_.split('/')[i] == val, True
+                items = set(x for _, o in R for x in o[1])
+                if not all(keep(s_)[1] for s_ in items):
+                    continue      # a string typed differently by two searched types: not decidable on strings
+                right = sorted(s_ for s_ in items if keep(s_)[0])
+                if left != right:
+                    fails.append((lc, lo, '%s, %s %s: %r gives %r, the matching part of %r is %r' % (finder, rule, val, q, left, R[0][0].args[-1], right)))
+        return fails
     def nontrivial(self, case, impl):
+        if case.stream == 'fspair':
+            return [case.op, case.args] if case.meta.get('side') == 'L' and impl[0] == 'ok' and impl[1] else None
         return case.args if case.meta.get('side') == 'L' and impl[0] == 'ok' and impl[1] else None
     def histogram_key(self, case, impl):
-        return '%s:%s:%s' % (case.meta.get('rule'), case.meta.get('side'), 'raise' if impl[0] != 'ok' else min(len(impl[1]), 3))
+        if case.stream in ('setup', 'paths', 'unfold'):
+            return case.stream
+        return '%s%s:%s:%s' % ('fs-' + case.meta['finder'] + ':' if case.stream == 'fspair' else '', case.meta.get('rule'), case.meta.get('side'), 'raise' if impl[0] != 'ok' else min(len(impl[1]), 3))
 
 PROP = C10()
